@@ -145,7 +145,20 @@ def run_graph(ck, gd, cfg, label):
                 ck.case(["cell", label, name, container, shape], True, sample={"graph": label, "entry": name, "container": container, "shape": shape})
                 ck.count("entry:" + name)
                 ck.count("container:" + container)
-                st, out = algos.call(lambda: fn(lambda v: build(v, container, shape, mshape)))  # pylint: disable=cell-var-from-loop
+                made = []
+
+                def tracked(v, container=container, shape=shape, made=made):
+                    obj = build(v, container, shape, mshape)
+                    snap = obj.clone() if hasattr(obj, "clone") else obj.copy() if hasattr(obj, "copy") and not isinstance(obj, list) else json.loads(json.dumps(obj))
+                    made.append((obj, snap))
+                    return obj
+
+                st, out = algos.call(lambda: fn(tracked))  # pylint: disable=cell-var-from-loop
+                for obj, snap in made:
+                    same = bool((obj == snap).all()) if hasattr(obj, "shape") else obj == snap
+                    if not same:
+                        ck.violation(f"C13/{name}/input-mutated/{container.split('.')[0]}", f"{name} modified the state object supplied by the caller ({container} {shape})", {"case": cell, "before": canon(snap), "after": canon(obj)})
+                        break
                 enc = "unencoded" if cfg.get("bit_encoding_width", "auto") is None else "encoded"
                 if st != "ok":
                     ck.violation(f"C13/{name}/{container.split('.')[0]}/{shape}/{enc}/{gd.kind}/error", f"{name} raised for {container} {shape}: {out}", {"case": cell, "observed": out})
@@ -164,6 +177,24 @@ def run_graph(ck, gd, cfg, label):
             st2, out = algos.call(lambda: canon(gd.graph(**cfg).bfs(start_states=b)))  # pylint: disable=cell-var-from-loop
             if st2 != "ok" or out != ref:
                 ck.violation(f"C13/bfs-batch/{container.split('.')[0]}/{shape}/{gd.kind}", f"bfs(start_states=batch) differs for {container} {shape}: {str(out)[:120]}", {"case": {"gd": gd.to_json(), "cfg": cfg, "entry": "bfs-batch", "container": container, "shape": shape, "rows": rows}})
+    # matrix generators built repeatedly from ONE caller-owned object (several moduli): the object must stay untouched
+    # and every generator must equal the one built from a plain list
+    if gd.kind == "mat":
+        from cayleypy import MatrixGenerator
+
+        base = [[(3 * r + 5 * c + 4) % 11 for c in range(gd.n)] for r in range(gd.n)]
+        for container in CONTAINERS:
+            obj = base if container == "list" else np.array(base, dtype=NP[container]) if container in NP else torch.tensor(base, dtype=TO[container])
+            snap = json.loads(json.dumps(base))
+            ck.case(["matgen-reuse", label, container], True)
+            ck.count("entry:MatrixGenerator.create(reused object)")
+            for modulo in (3, 8, 0, 5):
+                st, g = algos.call(lambda: MatrixGenerator.create(obj, modulo=modulo))  # pylint: disable=cell-var-from-loop
+                want = [[v % modulo if modulo else v for v in row] for row in base]
+                now = np.asarray(obj).tolist()
+                if st != "ok" or g.matrix.tolist() != want or now != snap:
+                    ck.violation(f"C13/matrix-generator-reuse/{container.split('.')[0]}", f"MatrixGenerator.create from a reused {container} object: generator or the caller's object is wrong (modulo {modulo})", {"case": {"gd": gd.to_json(), "cfg": cfg, "entry": "matgen-reuse", "container": container}, "generator": None if st != "ok" else g.matrix.tolist(), "expected": want, "callers_object_now": now})
+                    break
     # generators in containers
     if gd.kind == "perm":
         ref = canon(CayleyGraph(CayleyGraphDef.create(gd.gens, central_state=gd.central), **cfg).bfs())
